@@ -295,6 +295,19 @@ func modelPatch(s cliShape, v1 bool, patchText, docText string) (stdout string, 
 
 // pairs for the CLI panel: keyed arrays so that every flag has something to bite on.
 func c14Pair(r *gen.RNG, i int) (any, any) {
+	// kinds 0 and 4 are meant to differ under every reading: retry (deterministically) until they do
+	if k := i % 5; k == 0 || k == 4 {
+		for try := 0; try < 50; try++ {
+			a, b := c14PairOnce(r, i)
+			if !ref.Eq(a, b, ref.Set) && !ref.Eq(a, b, ref.Multiset) && !ref.EqPrec(a, b, 0.1) {
+				return a, b
+			}
+		}
+	}
+	return c14PairOnce(r, i)
+}
+
+func c14PairOnce(r *gen.RNG, i int) (any, any) {
 	switch i % 5 {
 	case 0:
 		return keyedMemberPair(r, gen.PTiny, []string{"id"})
